@@ -433,13 +433,14 @@ theorem wp_sigMessage (K : Crypto) (hK : CryptoOK K) (Q : Except Err Bytes → M
 
 theorem wp_akeHasFinished (K : Crypto) (Q : Except Err (Option Err) → MState → Prop) (s : MState) (a : Ake)
     (ha : s.conv.ake = some a)
-    (h : ∀ e r env' mm' cssid srs lmsc evs, Q (.ok e)
-      { conv := { s.conv with keys := (a.keys.generateNewDHKeyPair K r).1, ssid := cssid, sentRevealSig := srs,
+    (h : ∀ e r env' mm' cssid srs lmsc evs omk, Q (.ok e)
+      { conv := { s.conv with keys := ({ a.keys with oldMACKeys := omk }.generateNewDHKeyPair K r).1,
+                              ssid := cssid, sentRevealSig := srs,
                               ake := some a.wiped, lastMessageStateChange := lmsc, msgState := .encrypted },
         env := env', events := evs, mismatch := mm' }) :
     wp (akeHasFinished K) Q NoP s := by
   obtain ⟨r, env', mm', -, hr⟩ := akeHasFinished_run K s a ha
-  exact wp_of_runM _ _ _ _ _ _ hr (h _ r env' mm' _ _ _ _)
+  exact wp_of_runM _ _ _ _ _ _ hr (h _ r env' mm' _ _ _ _ _)
 
 theorem gen_ourCur (K : Crypto) (k : Keys) (r : Option Bytes) (h : k.ourCur ≠ none) :
     (k.generateNewDHKeyPair K r).1.ourCur ≠ none := by
@@ -501,7 +502,7 @@ theorem recvRevealSig_akeP (K : Crypto) (hK : CryptoOK K) (msg : Bytes) (st : Au
         | ok m2 =>
           akex [akeSetTheirCurrent, akeSetOurCurrent, hours', htheirs]
           refine wp_akeHasFinished K _ _ _ rfl ?_
-          intro e r env3 mm3 cssid2 srs lmsc evs
+          intro e r env3 mm3 cssid2 srs lmsc evs omk
           akex []
           refine ⟨_, _, _, rfl, h.finish _ rfl (gen_ourCur K _ _ (by simp)) rfl hock (by simp) rfl _ rfl⟩
   · exact ⟨_, _, _, rfl, h⟩
@@ -523,7 +524,7 @@ theorem recvSig_akeP (K : Crypto) (hK : CryptoOK K) (msg : Bytes) (st : AuthStat
     · intro pk keyID
       akex [akeSetTheirCurrent, htheirs]
       refine wp_akeHasFinished K _ _ _ rfl ?_
-      intro e r env3 mm3 cssid2 srs lmsc evs
+      intro e r env3 mm3 cssid2 srs lmsc evs omk
       akex []
       refine ⟨_, _, _, rfl, h.finish _ rfl (gen_ourCur K _ _ (by simpa using hk)) rfl hock (by simp) rfl _ rfl⟩
   · exact ⟨_, _, _, rfl, h⟩
